@@ -284,18 +284,20 @@ def naming(w, letters, style):
     if style == "letters":
         return tuple(letters)
     if style == "names":
-        return tuple(l * 2 for l in letters)
+        return tuple(w.dim(l).f["name"] for l in letters)
     if style == "objects":
         return tuple(w.dim(l) for l in letters)
     if style == "equal-objects":        # Dimension objects that are equal to the array's own, but not the same objects (a re-created
         return tuple(w.dim(l, fresh=True) for l in letters)       # dimension, a deep copy, the dims of a slice)
     if style == "mixed":
-        return tuple(l if i % 2 == 0 else l * 2 for i, l in enumerate(letters))
+        return tuple(l if i % 2 == 0 else w.dim(l).f["name"] for i, l in enumerate(letters))
     raise AnalysisError(style)
 
 
 def case_sum(prog, method, A, S, style, taint_mode="abort"):
     w = World(prog, taint_mode)
+    if w.same_names and style in ("names", "mixed") and len(A) > 1:
+        return None         # all dimensions carry one name: addressing by name is ambiguous by construction, not an input of the property
     case = Case("sum", method, f"FlodymArray.{method}", {"op": method, "x_dims": list(A), "arg": list(S), "given_as": style})
     x = w.array("x", A)
     X = leaf_term("x", A, w)
